@@ -71,13 +71,15 @@ class VerdictQueue(object):
         d = re.search(br'X-Queue-Delay: (\d+)', b''.join(envelope.flatten()))
         if d:
             gevent.sleep(int(d.group(1)) / 1000.0)      # a slow queue: the end-of-data reply takes its time
-        m = re.search(br'X-Queue-Verdict: (\d\d\d)( cmd| multi| relay)?', b''.join(envelope.flatten()))
+        m = re.search(br'X-Queue-Verdict: (\d\d\d)( cmd| multi| relay| utf8)?', b''.join(envelope.flatten()))
         if m:
             code = m.group(1).decode()
             how = (m.group(2) or b'').strip()
             text = '%s.3.0 scripted queue verdict' % code[0]
             if how == b'multi':
                 text += '\r\nsecond line of the verdict'          # as many real servers answer
+            if how == b'utf8':
+                text += ' bo\u00eete pleine \u2709'                # reply text is UTF-8 (SMTPUTF8 servers, localised messages)
             reply = Reply(code, text, command=(b'RCPT' if how in (b'cmd', b'relay') else None))
             if how == b'relay':
                 # what a ProxyQueue behind the edge hands back: the relay error of the next hop
@@ -425,10 +427,10 @@ def envelope_spec(draw, utf8, eightbit_ok):
         rcpts = draw(st.permutations(['v450@example.com', 'v550@example.org'] + draw(st.lists(st.sampled_from(
             ['v550@x.example', 'v450@y.example']), max_size=1))))
     block, eol, body, fields = draw(c20.structured_case())
-    block = re.sub(br'\r?\n', b'\r\n', block) + b'\r\n'
+    block = re.sub(br'\r?\n', b'\r\n', block).rstrip(b'\r\n') + b'\r\n'
     if not draw(st.integers(0, 3)):
         block += b'X-Queue-Verdict: ' + draw(st.sampled_from([b'451', b'554', b'452'])) + \
-            draw(st.sampled_from([b'', b'', b' cmd', b' multi', b' relay'])) + b'\r\n'
+            draw(st.sampled_from([b'', b'', b' cmd', b' multi', b' relay', b' utf8'])) + b'\r\n'
     body = draw(st.one_of(st.just(body), st.sampled_from([b'', b'.\r\n', b'..\r\n.\r\n', b'no newline', b'a\nb\n', b'line\r\n' * 50,
                                                           b'x', b'.', b'\n', b'one\r\n.x', b'one\r\n.', b'\r'])))
     if not eightbit_ok and draw(st.integers(0, 4)):
@@ -508,7 +510,7 @@ def run_shard(ctx):
 def replay(case):
     fam = case.get('family')
     if fam not in RUNNERS:
-        return []
+        return None            # not a case this check generates: cannot be replayed
     try:
         if fam == 'ext':
             exts = [(str(n), (None if p is None else str(p))) for n, p in case['exts'] if re.match(r'^[a-zA-Z0-9][a-zA-Z0-9-]*$', str(n))]
@@ -517,13 +519,13 @@ def replay(case):
         for e in case['envelopes']:
             block = bytes.fromhex(e['block'])
             if not c20.in_domain(block.rstrip(b'\r\n')) or not e['rcpts']:
-                return []
+                return None            # not a case this check generates: cannot be replayed
             for a in [x for x in [e['sender']] if x] + list(e['rcpts']):
                 if not re.match(r'^("([^"\\\r\n]|\\.)*"|[^\s"<>@\\]+)@[^\s<>@"]+$', a):
-                    return []
+                    return None            # not a case this check generates: cannot be replayed
             envs.append(e)
         if not envs:
-            return []
+            return None            # not a case this check generates: cannot be replayed
         return RUNNERS[fam](dict(case, envelopes=envs))[0]
     except (KeyError, ValueError, TypeError):
-        return []
+        return None            # not a case this check generates: cannot be replayed
